@@ -187,19 +187,17 @@ theorem keeps_replace {s : S} (g : Good s) (q i u : Nat) (hu : u < s.h.next) (hk
       have hmem : cur ∈ (s.h.obj l).items := List.mem_of_getElem? hcur
       have hcl : cur < s.h.next := g.wf.closed l cur (mem_ptrs.2 (Or.inr (Or.inr hmem)))
       have hck : (s.h.obj cur).kind = .unit := g.typed.items l cur hkl hmem
-      have k1 := keeps_setWeak g (o := cur) (w := none) hcl (unit_not_stable hck) (by intro t h; cases h)
-      have k2 := keeps_setItems k1.good (o := l) (l := ((s.setWeak cur none).h.obj l).items.set i u)
-        (by simpa using hll) (by rw [kind_setWeak]; exact hkl) (by
-          intro c hc
-          simp only [setWeak_next, kind_setWeak]
-          rcases mem_set hc with hc | hc
-          · rw [items_setWeak] at hc
-            exact ⟨g.wf.closed l c (mem_ptrs.2 (Or.inr (Or.inr hc))), g.typed.items l c hkl hc⟩
-          · subst hc; exact ⟨hu, hk⟩)
+      have k1 := keeps_setItems g (o := l) (l := (s.h.obj l).items.set i u) hll hkl (by
+        intro c hc
+        rcases mem_set hc with hc | hc
+        · exact ⟨g.wf.closed l c (mem_ptrs.2 (Or.inr (Or.inr hc))), g.typed.items l c hkl hc⟩
+        · subst hc; exact ⟨hu, hk⟩)
+      have k2 := keeps_setWeak k1.good (o := cur) (w := none) (by simpa using hcl)
+        (by rw [kind_setItems]; exact unit_not_stable hck) (by intro t h; cases h)
       have k12 := k1.trans k2
       have k3 := keeps_setWeak k12.good (o := u)
-        (w := (((s.setWeak cur none).setItems l (((s.setWeak cur none).h.obj l).items.set i u)).h.obj l).weak)
-        (by simpa using hu) (by rw [kind_setItems, kind_setWeak]; exact unit_not_stable hk)
+        (w := (((s.setItems l ((s.h.obj l).items.set i u)).setWeak cur none).h.obj l).weak)
+        (by simpa using hu) (by rw [kind_setWeak, kind_setItems]; exact unit_not_stable hk)
         (fun t ht => k12.good.wf.closed l t (mem_ptrs.2 (Or.inr (Or.inl ht))))
       exact k12.trans k3
     · exact Keeps.refl g
